@@ -535,6 +535,7 @@ class CallMixin(CompMixin):
                 init = f"{q}.__init__"
                 if init in self.ctx.contracts or front.find_function(init) is not None:
                     obj = self.alloc(st, HObj(cls, {}, None))
+                    st.ghost[("rootty", obj.root)] = TObj(cls)
                     self.call_qual(st, init, [obj] + list(args), kw, node)
                     return obj
                 # dataclass: positional fields
